@@ -78,7 +78,7 @@ pub fn drive_all(rep: &mut Report, bytes: &[u8], replay: &dyn Fn() -> J, origin:
     }
     // 2. seekable readers: read a little, then seek to 0, mid, end, end+1 and read again
     let obs = mon::observe(|| -> Result<u64, String> {
-        let mut rd = FlacSampleReader::new_seekable(Cursor::new(bytes)).map_err(|e| format!("{e:?}"))?;
+        let mut rd = FlacSampleReader::new_seekable(Cursor::new(bytes)).map_err(|e| crate::api::show(&e))?;
         let total = flac_codec::decode::Metadata::total_samples(&rd).unwrap_or(1000);
         let mut buf = vec![0i32; 777];
         let mut got = 0u64;
@@ -90,7 +90,7 @@ pub fn drive_all(rep: &mut Report, bytes: &[u8], replay: &dyn Fn() -> J, origin:
                     }
                 }
                 Err(e) => {
-                    let _ = format!("{e:?}");
+                    let _ = crate::api::show(&e);
                 }
             }
         }
@@ -98,7 +98,7 @@ pub fn drive_all(rep: &mut Report, bytes: &[u8], replay: &dyn Fn() -> J, origin:
     });
     check(rep, "SampleReader.seek", obs);
     let obs = mon::observe(|| -> Result<u64, String> {
-        let mut rd: FlacByteReader<_, LittleEndian> = FlacByteReader::new_seekable(Cursor::new(bytes)).map_err(|e| format!("{e:?}"))?;
+        let mut rd: FlacByteReader<_, LittleEndian> = FlacByteReader::new_seekable(Cursor::new(bytes)).map_err(|e| crate::api::show(&e))?;
         let mut buf = vec![0u8; 1000];
         let mut got = 0u64;
         for pos in [SeekFrom::Start(0), SeekFrom::Start(12345), SeekFrom::End(0), SeekFrom::End(-7), SeekFrom::Current(5), SeekFrom::Current(-3), SeekFrom::Start(u64::MAX / 4), SeekFrom::End(1)] {
@@ -112,7 +112,7 @@ pub fn drive_all(rep: &mut Report, bytes: &[u8], replay: &dyn Fn() -> J, origin:
     });
     check(rep, "ByteReader.seek", obs);
     let obs = mon::observe(|| -> Result<u64, String> {
-        let mut rd = FlacChannelReader::new_seekable(Cursor::new(bytes)).map_err(|e| format!("{e:?}"))?;
+        let mut rd = FlacChannelReader::new_seekable(Cursor::new(bytes)).map_err(|e| crate::api::show(&e))?;
         let total = flac_codec::decode::Metadata::total_samples(&rd).unwrap_or(1000);
         let mut got = 0u64;
         for target in [total / 3, 0, total, total.saturating_add(5)] {
@@ -160,7 +160,7 @@ pub fn drive_all(rep: &mut Report, bytes: &[u8], replay: &dyn Fn() -> J, origin:
     let obs = mon::observe(|| -> Result<u64, String> {
         let mut k = 0;
         for b in flac_codec::metadata::read_blocks(Cursor::new(bytes)) {
-            b.map_err(|e| format!("{e:?}"))?;
+            b.map_err(|e| crate::api::show(&e))?;
             k += 1;
         }
         Ok(k)
@@ -168,11 +168,11 @@ pub fn drive_all(rep: &mut Report, bytes: &[u8], replay: &dyn Fn() -> J, origin:
     check(rep, "read_blocks", obs);
     // 6. structural parser: FrameIterator + Subframe::decode, generate_seektable
     let obs = mon::observe(|| -> Result<u64, String> {
-        let it = flac_codec::stream::FrameIterator::new(Cursor::new(bytes)).map_err(|e| format!("{e:?}"))?;
+        let it = flac_codec::stream::FrameIterator::new(Cursor::new(bytes)).map_err(|e| crate::api::show(&e))?;
         let mut k = 0u64;
         let mut produced = 0usize;
         for f in it {
-            let (frame, _off) = f.map_err(|e| format!("{e:?}"))?;
+            let (frame, _off) = f.map_err(|e| crate::api::show(&e))?;
             for sf in &frame.subframes {
                 match sf {
                     flac_codec::stream::SubframeWidth::Common(s) => produced += s.decode().count(),
@@ -191,7 +191,7 @@ pub fn drive_all(rep: &mut Report, bytes: &[u8], replay: &dyn Fn() -> J, origin:
     }
     let obs = mon::observe(|| -> Result<u64, String> {
         use flac_codec::encode::{generate_seektable, SeekTableInterval};
-        let t = generate_seektable(Cursor::new(bytes), SeekTableInterval::Frames(std::num::NonZero::new(1).unwrap())).map_err(|e| format!("{e:?}"))?;
+        let t = generate_seektable(Cursor::new(bytes), SeekTableInterval::Frames(std::num::NonZero::new(1).unwrap())).map_err(|e| crate::api::show(&e))?;
         Ok(t.points.len() as u64)
     });
     check(rep, "generate_seektable", obs);
